@@ -15,12 +15,15 @@ use std::collections::{HashMap, HashSet};
 use std::sync::{atomic::{AtomicU32, Ordering::SeqCst}, Arc};
 
 #[derive(Clone, Debug)]
-pub struct Cfg { pub kind: Kind, pub n: usize, pub m: usize, pub listeners: usize, pub entries: Vec<Entry>, pub per_prod: u32, pub retries: u32, pub hold: Hold, pub droppy: bool }
+pub struct Cfg { pub kind: Kind, pub n: usize, pub m: usize, pub listeners: usize, pub entries: Vec<Entry>, pub per_prod: u32, pub retries: u32, pub hold: Hold, pub droppy: bool,
+    /// 0: the listeners are the first streams ever created; otherwise the seed of a random history of stream creations and drops (any order) that precedes the run and
+    /// leaves `listeners` streams alive: the set is fixed from then on, but the ids in use and the state of the stream-id bookkeeping are arbitrary
+    pub prehistory: u64 }
 impl Cfg {
     pub fn json(&self) -> J {
         J::obj().with("kind", J::s(self.kind.name())).with("N", J::i(self.n as i64)).with("M", J::i(self.m as i64)).with("listeners", J::i(self.listeners as i64))
             .with("producers", J::Arr(self.entries.iter().map(|e| J::s(e.name())).collect())).with("events_per_producer", J::i(self.per_prod as i64))
-            .with("retries", J::i(self.retries as i64)).with("hold", J::s(format!("{:?}", self.hold))).with("droppy", J::Bool(self.droppy))
+            .with("retries", J::i(self.retries as i64)).with("hold", J::s(format!("{:?}", self.hold))).with("droppy", J::Bool(self.droppy)).with("listeners_are_the_survivors_of_an_earlier_random_create_drop_history", J::Bool(self.prehistory != 0))
     }
 }
 
@@ -50,14 +53,22 @@ pub fn draw_cfg(rng: &mut Rng, only: Option<&str>, lane: Lane) -> Cfg {
     let es = entries_for(kind);
     let entries: Vec<Entry> = (0..nprod).map(|_| *rng.pick(&es)).collect();
     let retries = if lane == Lane::Free { 1_000_000 } else { rng.below(4) as u32 };
-    Cfg { kind, n, m, listeners, entries, per_prod, retries, hold, droppy }
+    let prehistory = if rng.chance(1, 3) { rng.next() | 1 } else { 0 };
+    Cfg { kind, n, m, listeners, entries, per_prod, retries, hold, droppy, prehistory }
 }
 
 pub fn one_run(cfg: &Cfg, rc: &RunCfg, acc: &mut Acc) -> (Option<J>, u64, bool) {
     let ch = chan::make(cfg.kind, cfg.n, cfg.m, cfg.droppy).expect("channel instantiation");
     let shift = if cfg.per_prod < 250 { 8 } else { 14 };
     if cfg.droppy { crate::payload::tracker().reset((cfg.entries.len() + 2) << shift) }
-    let mut strms: Vec<_> = (0..cfg.listeners).map(|_| ch.create_stream()).collect();
+    let mut strms: Vec<_> = Vec::new();
+    if cfg.prehistory != 0 {
+        let mut r = Rng::new(cfg.prehistory);
+        for _ in 0..r.below(3 * cfg.m as u64 + 1) { if strms.len() < cfg.m && r.chance(3, 5) { strms.push(ch.create_stream()) } else if !strms.is_empty() { let i = r.below(strms.len() as u64) as usize; drop(strms.remove(i)) } }
+        while strms.len() > cfg.listeners { let i = r.below(strms.len() as u64) as usize; drop(strms.remove(i)) }
+        acc.count("runs_whose_listeners_survive_an_earlier_create_drop_history", 1);
+    }
+    while strms.len() < cfg.listeners { strms.push(ch.create_stream()) }
     if rc.lane == Lane::Free { for s in strms.iter_mut() { crate::drive::preregister_noop(s) } }
     let clogs: Vec<Arc<ConsLog>> = (0..cfg.listeners).map(|_| Arc::new(ConsLog::default())).collect();
     let plogs: Vec<Arc<ProdLog>> = cfg.entries.iter().map(|_| Arc::new(ProdLog::default())).collect();
